@@ -6,6 +6,7 @@
   Quantifiers: all sizes, all vectors, all filters / index arrays / matrices, derivation trees of any depth.
 -/
 import Scico.Proofs.AdjointComplex
+import Scico.Proofs.AdjointTotal
 
 namespace Scico.Props.C01
 open Scico.Adjoint Finset
@@ -17,14 +18,15 @@ variable {K : Type} [Field K] [StarRing K]
     identity if the leaves do — for trees of any depth that pass scico's own shape checks. -/
 theorem C01_derived (env : Nat → Op K) (henv : ∀ i, IsAdj (env i)) (e : Expr K)
     (hwf : wf env e = true) (hdiv : divOK e) : IsAdj (run env e) :=
-  (isAdj_iff _).mpr
-    (derived_isAdjW test_id env (fun i => (isAdj_iff _).mp (henv i)) e hwf (scalOK_id_of_divOK e hdiv))
+  (isAdj_iff _).mpr (derived_isAdjW test_id env (fun i => (isAdj_iff _).mp (henv i)) e hwf hdiv)
 
-/-- The same in the real inner product `Re⟪·,·⟫` (operators from a real into a complex space): holds for trees whose
-    scalar factors are real. -/
+/-- The same in the real inner product `Re⟪·,·⟫` (operators from a real into a complex space), for ALL scalar factors,
+    real or not: the code applies `conj c` before the operand's adjoint (`self.adj(conj(c)*y)`, repo 9a89e4c), so a
+    complex multiple of a real→complex operator is again an adjoint pair in `Re⟪·,·⟫`.  (With the closure of the pinned
+    tree, `conj(c)*self.adj(y)`, this needed real scalars.) -/
 theorem C01_derived_re (env : Nat → Op K) (henv : ∀ i, IsAdjRe (env i)) (e : Expr K)
-    (hwf : wf env e = true) (hs : scalOK reTest e) : IsAdjRe (run env e) :=
-  derived_isAdjW test_re env henv e hwf hs
+    (hwf : wf env e = true) (hdiv : divOK e) : IsAdjRe (run env e) :=
+  derived_isAdjW test_re env henv e hwf hdiv
 
 /-- `.H` applies the conjugate transpose of the operator's matrix (it *is* the adjoint) -/
 theorem C01_H_eq_adj {A : Op K} {M : Nat → Nat → K} (hA : IsAdj A) (hM : IsMat A M) :
@@ -168,6 +170,79 @@ theorem C01_drep_pinned_fails :
     ¬ IsAdj (Op.drepPinned 2 2 1 (Op.mat 2 2 (fun i j => if i = 0 ∧ j = 1 then (1 : K) else 0))) :=
   drepPinned_not_adjoint
 
+
+/-! ### "applying the adjoint never fails for a conforming input"  (dtype / shape layer, Model/AdjointTy.lean) -/
+
+/-- For every derivation tree (any depth) over leaves that behave as they declare, that passes scico's construction
+    tests and contains no `+`/`-` of operands on different dtypes: `D.adj(y)` passes the dtype and shape guard of
+    `LinearOperator.adj` — and the guard of every nested `adj`/`__call__` inside the closures — for the `y` of the declared
+    output dtype and shape, and returns an array of the declared input dtype and shape; `D(x)` returns the declared
+    output type for the conforming `x`; hence also `D.adj(D(x))` never raises.
+    `coded = true`: `.T` as the code has it (then additionally no `.T` of an operand with complex input dtype ≠ output
+    dtype); `coded = false`: `.T` with the dtypes repaired (no condition on `.T`). -/
+theorem C01_adj_total (coded : Bool) (env : Nat → TOp) (henv : ∀ i, Faithful (env i)) (t : TExpr)
+    (hwf : wfT coded env t = true) (hh : homog coded env t = true) :
+    (runT coded env t).adjC ⟨(runT coded env t).odt, (runT coded env t).osh⟩
+        = .ok ⟨(runT coded env t).idt, (runT coded env t).ish⟩
+      ∧ (runT coded env t).call ⟨(runT coded env t).idt, (runT coded env t).ish⟩
+        = .ok ⟨(runT coded env t).odt, (runT coded env t).osh⟩
+      ∧ andThen ((runT coded env t).call ⟨(runT coded env t).idt, (runT coded env t).ish⟩) (runT coded env t).adjC
+        = .ok ⟨(runT coded env t).idt, (runT coded env t).ish⟩ := by
+  have h := faithful_runT coded env henv t hwf hh
+  refine ⟨h.adjC_ok, h.call_ok, ?_⟩
+  rw [h.call_ok]
+  exact h.adjC_ok
+
+/-- conversely the guard of `LinearOperator.adj` rejects every array that is not of the declared output dtype and
+    shape (no silent cast, no broadcast) -/
+theorem C01_adj_guard_rejects (A : TOp) (hg : A.guard = true) (y : Ty) (h : y.dt ≠ A.odt ∨ y.sh ≠ A.osh) :
+    ∃ e, A.adjC y = .error e :=
+  adjC_rejects hg h
+
+/-- the statement without the exclusion (not claimed): every accepted tree over faithful leaves has a total adjoint -/
+def C01_adj_total_stmt : Prop :=
+  ∀ (env : Nat → TOp), (∀ i, Faithful (env i)) → ∀ t : TExpr, wfT true env t = true →
+    (runT true env t).adjC ⟨(runT true env t).odt, (runT true env t).osh⟩
+      = .ok ⟨(runT true env t).idt, (runT true env t).ish⟩
+
+/-- RECORDED `mixed-operand-dtypes`: it is false — the recorded witness
+    `SingleAxisFiniteDifference((3,), float64, circular=True) + MatrixOperator(complex128 3×3)` is accepted at
+    construction and its `adj` raises the dtype error for the conforming `y` -/
+theorem C01_adj_total_stmt_false : ¬ C01_adj_total_stmt := by
+  intro h
+  have := h witnessEnv witnessEnv_faithful (.add (.leaf 0) (.leaf 1)) (by decide)
+  revert this
+  decide
+
+/-- … in general: whenever the operands of `A ± B` declare different output dtypes, `adj` of the result raises for
+    EVERY array `y` (so the exclusion in `C01_adj_total` cannot be dropped); for the conforming `y` the error is the
+    dtype error of an operand's guard -/
+theorem C01_mixed_sum_adj_fails (A B : TOp) (hgA : A.guard = true) (hgB : B.guard = true) (hd : A.odt ≠ B.odt) :
+    (∀ y, ∃ e, (TOp.add A B).adjC y = .error e)
+      ∧ (Faithful A → (TOp.add A B).adjC ⟨(TOp.add A B).odt, (TOp.add A B).osh⟩ = .error .dtype) :=
+  ⟨add_mixed_adj_fails hgA hgB hd, fun hA => add_mixed_adj_dtype_error hA hgA hgB hd⟩
+
+/-- operands that agree on the output dtype but whose input dtypes do not promote to the first one: `adj` returns an
+    array that is NOT of the declared input dtype -/
+theorem C01_mixed_sum_adj_wrong_dtype (A B : TOp) (hA : Faithful A) (hB : Faithful B) (hi : A.ish = B.ish)
+    (ho : A.osh = B.osh) (hdo : A.odt = B.odt) (hdi : DT.promote A.idt B.idt ≠ A.idt) :
+    ∃ d, d ≠ (TOp.add A B).idt ∧
+      (TOp.add A B).adjC ⟨(TOp.add A B).odt, (TOp.add A B).osh⟩ = .ok ⟨d, (TOp.add A B).ish⟩ :=
+  add_mixed_input_unfaithful hA hB hi ho hdo hdi
+
+/-- RECORDED `linop-T-complex-dtypes`: `.T` as coded of an operator with complex input dtype ≠ output dtype cannot be
+    evaluated on a conforming input, and `A.T.H.adj(y)` raises the dtype error for the conforming `y` -/
+theorem C01_T_coded_dtypes_fail (A : TOp) (hg : A.guard = true) (hc : A.idt.cplx = true) (hd : A.idt ≠ A.odt) :
+    (TOp.trCoded A).call ⟨(TOp.trCoded A).idt, (TOp.trCoded A).ish⟩ = .error .dtype
+      ∧ (TOp.herm (TOp.trCoded A)).adjC ⟨(TOp.herm (TOp.trCoded A)).odt, (TOp.herm (TOp.trCoded A)).osh⟩ = .error .dtype :=
+  trCoded_mixed_fails hg hc hd
+
+/-- complex scalar times an operator with a real output space (`_to_output_space` keeps the real part of `conj(c)·y`):
+    adjoint pair in `Re⟪·,·⟫` -/
+theorem C01_smul_complex_on_real_output {A : Op ℂ} (hA : IsAdjRe A) (hreal : ∀ x, ∀ i < A.nout, (A.eval x i).im = 0)
+    (c : ℂ) : IsAdjRe (Op.smulRe creal c A) :=
+  smulRe_isAdjRe hA hreal c
+
 /-! ### non-vacuity -/
 
 example : JaxTransposeRC probeTransposeRC := probeTransposeRC_ok
@@ -210,5 +285,28 @@ example (M : Nat → Nat → ℂ) : IsRLinear 3 (Op.mat 2 3 M).eval := by
 -- covered detector: indices 0,1,0 on a detector of 2 bins
 example : ∀ p < 3, (fun _ => (1 : K)) p = 0 ∨ (fun p => p % 2) p < 2 := by
   intro p _; right; exact Nat.mod_lt _ (by decide)
+
+-- a well-formed homogeneous typed tree over the witness environment: ((2i)·A₂ᴴ) ∘ ((A₂ − A₂) stacked twice)… all
+-- construction tests pass, no mixed sum: hypotheses of `C01_adj_total` hold (both `.T` variants)
+example : wfT true witnessEnv (.comp (.smul .wcplx (.herm (.leaf 2))) (.gram (.tr (.sub (.leaf 2) (.cj (.leaf 2)))))) = true
+    ∧ homog true witnessEnv (.comp (.smul .wcplx (.herm (.leaf 2))) (.gram (.tr (.sub (.leaf 2) (.cj (.leaf 2)))))) = true := by
+  decide
+
+example : wfT false witnessEnv (.vfin (.vcons (.leaf 0) (.vone (.neg (.leaf 0))))) = true
+    ∧ homog false witnessEnv (.dfin true false (.dcons (.drep 2 0 1 (.leaf 0)) (.done (.drep 2 1 0 (.leaf 0))))) = true
+    ∧ wfT false witnessEnv (.dfin true false (.dcons (.drep 2 0 1 (.leaf 0)) (.done (.drep 2 1 0 (.leaf 0))))) = true := by
+  decide
+
+-- the hypotheses of the negation theorems are met by the recorded witnesses
+example : (witnessEnv 0).guard = true ∧ (witnessEnv 2).guard = true ∧ (witnessEnv 0).odt ≠ (witnessEnv 2).odt := by decide
+example : (witnessEnv 3).guard = true ∧ (witnessEnv 3).idt.cplx = true ∧ (witnessEnv 3).idt ≠ (witnessEnv 3).odt := by decide
+
+-- an operator over ℂ with real-valued output that satisfies the Re-identity (hypotheses of C01_smul_complex_on_real_output)
+example (r : Nat → Nat → ℝ) :
+    IsAdjRe (realToComplex 2 3 (fun i j => (r i j : ℂ)))
+      ∧ ∀ x, ∀ i < 2, ((realToComplex 2 3 (fun i j => (r i j : ℂ))).eval x i).im = 0 := by
+  refine ⟨realToComplex_isAdjRe _ _ _, ?_⟩
+  intro x i _
+  simp [realToComplex, mulVec, sumTo_eq, vre, Complex.im_sum]
 
 end Scico.Props.C01
